@@ -188,7 +188,12 @@ def evaluate(F, body):
             indeg[s] -= 1
             if indeg[s] <= 0:
                 work.append(s)
-    inn, out = {0: {}}, {}
+    # integer arguments are symbols of their own (entry values; a reassignment overwrites the binding flow-sensitively)
+    env0 = {}
+    for l in range(1, b.argc + 1):
+        if b.local_ty(l) in ("usize", "u32", "u64", "u16", "u8"):
+            env0[l] = aff_sym("arg:%s" % (b.local_name(l) or "_%d" % l))
+    inn, out = {0: env0}, {}
     for bb in order:
         env = dict(inn.get(bb, {}))
         if bb in heads:
